@@ -588,7 +588,7 @@ func (d *D) RunItem(idx int, ctx *core.Ctx) {
 			ctx.Violate(f, v)
 		}
 	}
-	if c.conform > 0 && idx%c.conform == 0 {
+	if c.conform > 0 && idx%c.conform == 0 && os.Getenv("VERIF_NO_CONFORM") == "" {
 		d.conformance(sc, ctx, c.conformN)
 	}
 	if len(ctx.St.Samples) < 3 && len(sc.Files) > 0 && len(sc.Files[0].Content) < 300 {
